@@ -196,7 +196,7 @@ PROPS["C04"] = {
                     "merge_1", "merge_2", "merge_callback_failed", "dupsort_1", "dupsort_2", "path_1", "path_2", "no_sources"],
     "assumptions": TABLE_ASSUME,
     "tiers": {
-        "quick": [{"mode": "rc", "cases": 2500, "max_size": 100}],
+        "quick": [{"mode": "rc", "cases": 1500, "max_size": 100}],
         "thorough": [{"mode": "rc", "cases": 60000, "max_size": 100}],
     },
 }
@@ -217,7 +217,7 @@ PROPS["C05"] = {
                     "seek_after_failure", "lookups_through_merger_source", "kind_0", "kind_1", "kind_2", "kind_3", "user_defined_source"],
     "assumptions": TABLE_ASSUME,
     "tiers": {
-        "quick": [{"mode": "rc", "cases": 2500, "max_size": 100}],
+        "quick": [{"mode": "rc", "cases": 1500, "max_size": 100}],
         "thorough": [{"mode": "rc", "cases": 60000, "max_size": 100}],
     },
 }
@@ -423,5 +423,58 @@ PROPS["C11"] = {
     "tiers": {
         "quick": [{"mode": "samples", "workers": 1}, {"mode": "rc", "cases": 200, "max_size": 100}],
         "thorough": [{"mode": "samples", "workers": 1}, {"mode": "rc", "cases": 6000, "max_size": 100}],
+    },
+}
+
+PROPS["C18"] = {
+    "manifest": {
+        "level_text": ("Generated API histories composed of scenarios (writer/reader/iterators incl. non-tables; mergers over tables and "
+                       "user sources with a possibly failing merge callback; sorters with 1..n chunks, pooled or not, destroyed before / "
+                       "during / after iteration or written out, with a failing merge callback when un-pooled; filesets with dup handles, "
+                       "missing and non-table entries and reload_now; pools shared by several writers), every object destroyed at a "
+                       "generated point of its life cycle. Each history runs in a forked child; after a warm-up the set of open "
+                       "descriptors, the table/temp-file mappings, the thread count, the temp-directory listing, LeakSanitizer and the "
+                       "allocator's byte count are compared before and after. Exploration."),
+        "level_note": TRUST + " LeakSanitizer sees unreachable allocations only; reachable-but-forgotten memory is caught by the allocator byte count (with an allowance for the harness's own bookkeeping).",
+        "technique": PBT + "; stateful history generation with a resource-census invariant (/proc/self/fd, /proc/self/maps, LeakSanitizer, allocator statistics)",
+    },
+    "src": "props/C18.cpp", "extra_src": ["harness/shims/shims.c"], "shims": ["sorter.mkshim"],
+    "env": {"ASAN_OPTIONS": "detect_leaks=1:leak_check_at_exit=0:exitcode=66:abort_on_error=0:allocator_may_return_null=1:handle_abort=0:detect_stack_use_after_return=0"},
+    "level": "exploration",
+    "rule": ("case = 1-4 scenarios with numeric parameters (sizes, pool, destroy points, failure injection). Non-trivial: a sorter "
+             "with >= 2 chunks, or an iterator destroyed before exhaustion, or a call that reported failure. Distinct by FNV-1a."),
+    "expect_tags": ["scn_rw", "scn_merge", "scn_sort", "scn_fileset", "scn_pool", "sorter_multi_chunk", "pooled_sorter",
+                    "pooled_sorter_destroyed_with_jobs_in_flight", "iterator_abandoned_before_drained", "call_reported_failure",
+                    "merge_callback_failed", "fileset_dup", "fileset_reloaded", "writers_sharing_a_pool"],
+    "assumptions": TABLE_ASSUME,
+    "tiers": {
+        "quick": [{"mode": "rc", "cases": 600, "max_size": 100}],
+        "thorough": [{"mode": "rc", "cases": 15000, "max_size": 100}],
+    },
+}
+
+PROPS["C07"] = {
+    "manifest": {
+        "level_text": ("Stateful, model-based testing of filesets: generated interleavings of setfile rewrites (in place / by rename, relative "
+                       "and absolute lines, names of tables, of a non-table and of a missing file), clock advances (harness-owned monotonic "
+                       "clock), reload / reload_now, dup with other filters / intervals, open / advance / close iterators of every kind, "
+                       "complete reads and handle destruction. A tolerant model tracks which setfile versions a correct implementation may "
+                       "have loaded (reloads that are permitted but not required widen the set, every observation narrows it; an empty set "
+                       "is the violation); while any iterator is open all observations must agree on one version. ASan covers dangling "
+                       "readers. Exploration."),
+        "level_note": TRUST + " Generators respect what real callers provide: no duplicate names in a setfile version, strictly increasing setfile mtimes, iterators destroyed before their handle, a strictly increasing clock. mtbl_fileset_partition (deprecated) is not driven.",
+        "technique": PBT + "; stateful model-based testing with a candidate-set (tolerant) model and a harness-owned clock (clock_gettime shim)",
+    },
+    "src": "props/C07.cpp", "extra_src": ["harness/shims/shims.c"], "shims": ["fileset.clkshim"],
+    "level": "exploration",
+    "rule": ("case = (initial setfile, interval of the first handle, <= ~40 ops). Non-trivial: the history contains a setfile change "
+             "followed by a forced reload through one handle and a read through another handle, or an iterator held open across a "
+             "reload_now. Distinct by FNV-1a."),
+    "expect_tags": ["dup", "setfile_rewritten", "change_then_reload_via_one_handle_then_read_via_another",
+                    "iterator_open_across_reload_now", "handle_destroyed_midway"],
+    "assumptions": TABLE_ASSUME,
+    "tiers": {
+        "quick": [{"mode": "rc", "cases": 1500, "max_size": 100}],
+        "thorough": [{"mode": "rc", "cases": 60000, "max_size": 100}],
     },
 }
